@@ -22,7 +22,7 @@ from vmon.monitors import c09_spies as S
 PROPERTY = "C09"
 LEVEL = "exploration"
 SHARDS = {"quick": 8, "thorough": 16}
-BUDGET = {"quick": 25.0, "thorough": 400.0}
+BUDGET = {"quick": 20.0, "thorough": 390.0}
 REQUIRE = {
     # oracle evaluations per clause (quick observes >= 10x these)
     "cases_judged": 150,
@@ -34,6 +34,17 @@ REQUIRE = {
     "c3_move_evals": 500,
     "c3_move_accepted_row_checked": 300,
     "c3_move_refused_agreed": 100,
+    # size histories: probing preceded by touches of the same tree at other sizes with the canvas cache enabled
+    "hist_cases_judged": 100,
+    "hist_cases_probed_in_post_history_state": 80,
+    "hist_cases_rerender_variant": 30,
+    "hist_cases_no_rerender_variant": 30,
+    "hist_touches": 150,
+    "hist_rerender_served_from_cache": 20,
+    "c1_cursor_evals_after_history": 150,
+    "c2_mouse_cells_after_history": 1500,
+    "c2b_button1_cells_after_history": 100,
+    "c3_move_evals_after_history": 150,
     # every container/decoration of the statement was part of judged cases
     **{f"judged_with:{k}": 8 for k in ("Pile", "Columns", "Frame", "Filler", "Padding", "Overlay", "BoxAdapter", "LineBox", "AttrMap", "GridFlow", "ListBox", "Edit")},
     # mechanism functions reached
@@ -71,7 +82,11 @@ RULE = (
     "seeded random JSON recipes over Pile/Columns/Frame/Filler/Padding/Overlay/BoxAdapter/LineBox/AttrMap/GridFlow/ListBox/"
     "Scrollable/ScrollBar around flow/box/fixed spy leaves and real Edit/SelectableIcon/Button/CheckBox leaves, depth<=3 (quick) / "
     "<=5 (thorough), root rendered as box/flow/fixed at estimate+slack sizes; every subtree of a judged case is re-rooted at the "
-    "size it was observed to be handed and judged as its own case; a case = (recipe, size); distinct = distinct (recipe,size); "
+    "size it was observed to be handed and judged as its own case; ~45% of the non-fixed cases carry a SIZE HISTORY: after the observing "
+    "render at S (canvas kept alive, canvas cache enabled, spy leaves cacheable) the same tree is touched 1-3 times at other sizes "
+    "(render / rows / get_cursor_coords / pack at cols half,double,-3..+7, rows half,-1,+1,+3), then (variant) rendered at S again "
+    "(normally a cache hit), and only then probed at S against the canvas for S; the history is re-applied after every re-observation; "
+    "a case = (recipe, size, focus, history); distinct = distinct such tuples; "
     "non-trivial = fit precondition observed (every leaf fully visible on the root canvas, no WidgetWarning) and >=1 leaf cell judged"
 )
 ASSUMES = [
@@ -95,7 +110,15 @@ ASSUMES = [
     "real leaves: only their glyph cells are judged; top-left = first glyph cell minus the documented label offset (Button '< ' 2, CheckBox '[ ] ' 4); "
     "Button/CheckBox narrower than 5 columns count as clipped",
     "a non-selectable spy never shows or reports a cursor (urwid containers do not report cursors of non-selectable children)",
+    "C01's contract is part of the domain: a tree in which some flow container's rows() (computed, not read from the canvas cache) differs "
+    "from the rows of the canvas it rendered is skipped (skipped_precondition:rows_method_disagrees_with_rendered_rows): with the canvas "
+    "cache enabled its parent sees one height while rendering and another afterwards (e.g. Pile of fixed-only children as a 'pack' column)",
     "a fixed spy raises ValueError when handed a non-() size, like urwid's own fixed-only widgets raise WidgetError",
+    "size histories: the fit precondition is established at the probe size S only; the other sizes need not fit and exceptions raised while "
+    "touching them are counted, not judged; if rendering at S after the history shows another picture than the canvas kept for S (scroll "
+    "state moved), the tree is observed afresh and probed without stale state (hist_changed_picture_reobserved). A disagreement that needs "
+    "the history carries '|after-other-size' in its signature, the kind collapsed to its family (event-misrouted / move-misrouted), c2b "
+    "merged into c2 and the leaf class dropped",
 ]
 
 CELL_CAP = {"quick": 260, "thorough": 500}
@@ -116,6 +139,9 @@ class Obs:
         self.cellmap = {}  # (c, r) -> leaf node
         self.sizes = {}  # id(widget) -> size it was rendered at (last)
         self.dims = {}  # id(widget) -> (cols, rows) of the canvas it produced
+        self.after_history = False  # probing follows a history of touches at other sizes (cache enabled)
+        self.keep = None
+        self.canvas = None  # the root canvas for this size ("what is on screen"); keeping it keeps the cache entries alive
         self.cols = self.rows = 0
 
 
@@ -161,6 +187,30 @@ def containers_clipped(root, dims):
     return ""
 
 
+def rows_disagree(root, seen, dims, focus):
+    """C01's contract as part of the domain: a flow widget whose rows() (computed, not answered from the canvas cache) differs
+    from the rows of the canvas it just rendered gives its parent two different geometries depending on what is cached --
+    'the rows it needs' is then undefined.  Such trees belong to C01 and are not judged here."""
+    chain = {id(n) for n in focus_chain(root)} if focus else set()
+    for n in root.walk():
+        sz = seen.get(id(n.w))
+        d = dims.get(id(n.w))
+        if n.is_leaf() or sz is None or d is None or len(sz) != 1:
+            continue
+        f = type(n.w).rows
+        while hasattr(f, "__wrapped__"):
+            f = f.__wrapped__
+        try:
+            with warnings.catch_warnings():
+                warnings.simplefilter("ignore")
+                r = f(n.w, sz, id(n) in chain)
+        except Exception:  # noqa: BLE001
+            continue
+        if r != d[1]:
+            return "rows_method_disagrees_with_rendered_rows"
+    return ""
+
+
 def observe(root, size, log, focus=True) -> Obs:
     o = Obs()
     seen = {}
@@ -194,7 +244,7 @@ def observe(root, size, log, focus=True) -> Obs:
         return o
     o.sizes = seen
     o.dims = dims
-    why = containers_clipped(root, dims)
+    why = containers_clipped(root, dims) or rows_disagree(root, seen, dims, focus)
     if why:
         o.reason = why
         return o
@@ -212,6 +262,7 @@ def observe(root, size, log, focus=True) -> Obs:
         o.reason = "ragged_canvas"
         return o
     o.grid = grid
+    o.canvas = canv
     o.cursor = canv.cursor
     # sizes each leaf was rendered at during this root render
     rsizes = {}
@@ -368,9 +419,86 @@ def edit_rows_with_position(r, width):
     return {(cap + p) // width for p in range(ln + 1)}
 
 
+# ----------------------------------------------------------------------------- size histories
+TOUCH_OPS = ("render", "render", "rows", "cursor", "pack")
+TOUCH_DELTAS = ("half", "half", "double", -1, -2, -3, 1, 2, 4, 7)
+
+
+def gen_history(rng):
+    """a short history of touching the SAME tree at other sizes before probing at the case's size; sizes are
+    transforms of the probe size so that the history is meaningful for any (re-rooted) tree"""
+    n = rng.choice([1, 1, 2, 2, 3])
+    touch = [{"op": rng.choice(TOUCH_OPS), "dc": rng.choice(TOUCH_DELTAS), "dr": rng.choice((0, 0, "half", -1, 1, 3))} for _ in range(n)]
+    return {"touch": touch, "rerender": rng.random() < 0.5, "c3_first": rng.random() < 0.4}
+
+
+def _tr(v, d):
+    if d == "half":
+        return max(1, v // 2)
+    if d == "double":
+        return v * 2
+    return max(1, v + d)
+
+
+def other_size(size, t):
+    if not size:
+        return None
+    s2 = (_tr(size[0], t["dc"]),) + tuple(_tr(v, t["dr"]) for v in size[1:])
+    return None if s2 == tuple(size) else s2
+
+
+def apply_history(ctx, root, o, size, focus, hist, log):
+    """Touch the tree at other sizes with the canvas cache ENABLED and the canvas for `size` (o.canvas) kept alive, then
+    (variant) render at `size` again, which is now normally served from the cache.  Returns True if the canvas for `size`
+    is still what would be shown (so o stays valid), False if the history changed what is drawn at `size`."""
+    leaves = root.leaves()
+    saved = {lf.sid: (lf.w.last_size, lf.w.last_dims) for lf in leaves}
+    keep = [o.canvas]
+    ok = True
+    with warnings.catch_warnings():
+        warnings.simplefilter("ignore")
+        for t in hist["touch"]:
+            s2 = other_size(size, t)
+            if s2 is None:
+                continue
+            w = root.w
+            try:
+                op = t["op"]
+                if op == "rows" and len(s2) == 1:
+                    w.rows(s2, focus)
+                elif op == "cursor" and hasattr(w, "get_cursor_coords"):
+                    w.get_cursor_coords(s2)
+                elif op == "pack":
+                    w.pack(s2, focus)
+                else:
+                    keep.append(w.render(s2, focus))
+                ctx.count("hist_touches")
+                ctx.count("hist_touch:" + op)
+            except Exception:  # noqa: BLE001  (the other size need not fit: not judged)
+                ctx.count("hist_touch_raised_not_judged")
+        if hist.get("rerender"):
+            try:
+                c = root.w.render(size, focus)
+                if c is o.canvas:
+                    ctx.count("hist_rerender_served_from_cache")
+                elif read_grid(c) != o.grid or c.cursor != o.cursor:
+                    ok = False
+                else:
+                    ctx.count("hist_rerender_rebuilt_same_picture")
+                    keep.append(c)
+            except Exception:  # noqa: BLE001
+                ok = False
+    for lf in leaves:
+        lf.w.last_size, lf.w.last_dims = saved[lf.sid]
+    del log[:]
+    o.keep = keep
+    return ok
+
+
 # ----------------------------------------------------------------------------- one case
 class Case:
-    def __init__(self, ctx, recipe, size, collect, focus=True):
+    def __init__(self, ctx, recipe, size, collect, focus=True, hist=None):
+        self.hist = hist
         self.focus = bool(focus)
         self.key = json.dumps(strip(recipe), sort_keys=True)  # sampling must not depend on generator-only steering keys
         self.ctx = ctx
@@ -380,6 +508,20 @@ class Case:
         self.log = []
         self.root = None
         self.subs = []
+        self.moves_done = []  # accepted move_cursor_to_coords calls so far on self.root (replayed by blame)
+
+    def look(self, root):
+        """observe the tree at the case's size (full render, cache cleared); for history cases then touch it at other
+        sizes with the cache enabled so that the probing that follows meets whatever per-size state that leaves behind"""
+        o = observe(root, self.size, self.log, self.focus)
+        if o.ok and self.hist is not None:
+            if apply_history(self.ctx, root, o, self.size, self.focus, self.hist, self.log):
+                o.after_history = True
+            else:
+                # the history changed what is drawn at this size (e.g. scroll state): observe afresh, no stale state left
+                self.ctx.count("hist_changed_picture_reobserved")
+                o = observe(root, self.size, self.log, self.focus)
+        return o
 
     def fresh(self):
         self.log = []
@@ -437,6 +579,8 @@ class Case:
                 ctx.count("c1_rerender_error")
                 continue
             ctx.count("c1_cursor_evals")
+            if o.after_history:
+                ctx.count("c1_cursor_evals_after_history")
             ctx.count("c1_cursor_evals_on_chain" if id(n) in onchain else "c1_cursor_evals_off_chain")
             if cur is not None:
                 ctx.count("c1_cursor_evals_not_none")
@@ -517,17 +661,19 @@ class Case:
             for k in range(nev):
                 ev, btn = EVENTS[(i + k * 2 + cell[0]) % len(EVENTS)]
                 del self.log[:]
-                op = {"op": "mouse", "event": ev, "button": btn, "col": cell[0], "row": cell[1], "focus": self.focus}
+                op = {"op": "mouse", "event": ev, "button": btn, "col": cell[0], "row": cell[1], "focus": self.focus, "after": list(self.moves_done)}
                 try:
                     root.w.mouse_event(self.size, ev, btn, cell[0], cell[1], self.focus)
                 except Exception as e:  # noqa: BLE001
                     self.viol("c2", f"mouse_event-raise:{exc_kind(e)}", o.cellmap[cell], f"mouse_event at {cell} raised {type(e).__name__}: {e}", op)
                     continue
                 ctx.count("c2_mouse_cells")
+                if o.after_history:
+                    ctx.count("c2_mouse_cells_after_history")
                 entries = [e for e in self.log if e[0] == "mouse"]
                 self.expect_mouse(o, cell, entries, "c2", op)
         # the probe events must not have changed what is drawn
-        o2 = observe(root, self.size, self.log, self.focus)
+        o2 = self.look(root)
         if not o2.ok or o2.grid != o.grid:
             ctx.count("c2_probe_changed_canvas")
             return None
@@ -546,7 +692,7 @@ class Case:
             picks = rng.sample(cells, min(len(cells), ctx.pick(4, 8)))
         for cell in picks:
             root = self.fresh()
-            of = observe(root, self.size, self.log, self.focus)
+            of = self.look(root)
             if not of.ok or of.grid != o.grid:
                 ctx.count("c2b_fresh_tree_differs")
                 continue
@@ -558,6 +704,8 @@ class Case:
                 self.viol("c2b", f"mouse_event-raise:{exc_kind(e)}", of.cellmap[cell], f"button-1 press at {cell} raised {type(e).__name__}: {e}", op)
                 continue
             ctx.count("c2b_button1_cells")
+            if of.after_history:
+                ctx.count("c2b_button1_cells_after_history")
             entries = [e for e in self.log if e[0] == "mouse"]
             self.expect_mouse(of, cell, entries, "c2b", op)
 
@@ -584,7 +732,7 @@ class Case:
         rng = ctx.subrng("mv", self.key, self.size)
         rng.shuffle(cells)
         cells = cells[: MOVE_CAP[ctx.tier]]
-        history = []
+        history = self.moves_done
         for cell in cells:
             if cell not in o.cellmap or not self.eligible_move(o.cellmap[cell]):
                 continue
@@ -599,6 +747,8 @@ class Case:
                 self.viol("c3", f"move_cursor-raise:{exc_kind(e)}", lf, f"move_cursor_to_coords{cell} raised {type(e).__name__}: {e}", op)
                 break
             ctx.count("c3_move_evals")
+            if o.after_history:
+                ctx.count("c3_move_evals_after_history")
             moves = [e for e in self.log if e[0] == "move"]
             mine = [e for e in moves if e[1] == lf.sid]
             if lf.kind == "spy":
@@ -612,7 +762,7 @@ class Case:
                 ctx.count("c3_edit_answer_unknown_not_judged")
                 if ret:
                     history.append([cell[0], cell[1]])
-                    o = observe(root, self.size, self.log)
+                    o = self.look(root)
                     if not o.ok:
                         break
                 continue
@@ -666,7 +816,7 @@ class Case:
             if bad:
                 break
             # state changed: re-observe; the precondition must still hold to go on
-            o = observe(root, self.size, self.log)
+            o = self.look(root)
             if not o.ok:
                 ctx.count("c3_precondition_lost_after_move")
                 break
@@ -682,7 +832,7 @@ class Case:
             ctx.count("skipped_build_error")
             ctx.count("skipped_build_error:" + type(e).__name__)
             return None
-        o = observe(root, self.size, self.log, self.focus)
+        o = self.look(root)
         if not o.ok:
             if o.reason.startswith("render_error"):
                 ctx.count("skipped_render_error")
@@ -701,9 +851,29 @@ class Case:
         if not self.focus:
             # unfocused rendering: only hit-testing is meaningful (no cursor is drawn)
             ctx.count("cases_judged_unfocused_root")
+            if self.hist is not None:
+                ctx.count("hist_cases_judged")
+                if o.after_history:
+                    ctx.count("hist_cases_probed_in_post_history_state")
             self.clause2(o)
             self.clause2b(o)
             return o
+        if self.hist is not None:
+            ctx.count("hist_cases_judged")
+            ctx.count("hist_cases_rerender_variant" if self.hist.get("rerender") else "hist_cases_no_rerender_variant")
+            if o.after_history:
+                ctx.count("hist_cases_probed_in_post_history_state")
+        if self.hist is not None and self.hist.get("c3_first"):
+            # let the very first move_cursor_to_coords meet the post-history state too
+            o0 = o
+            self.clause3(o)
+            o = self.look(root)
+            if not o.ok:
+                return o0
+            self.clause1(o)
+            self.clause2(o)
+            self.clause2b(o0)
+            return o0
         self.clause1(o)
         o2 = self.clause2(o)
         if o2 is not None:
@@ -767,9 +937,9 @@ class Quiet:
         return self._ctx.subrng(*key)
 
 
-def run_collect(ctx, recipe, size, focus=True):
+def run_collect(ctx, recipe, size, focus=True, hist=None):
     got = []
-    Case(ctx, recipe, size, got, focus).run()
+    Case(ctx, recipe, size, got, focus, hist).run()
     return got
 
 
@@ -817,6 +987,18 @@ def move_kind(ret, mine, expect, lx, ly):
     return None
 
 
+def kind_family(kind):
+    if kind is None:
+        return None
+    if "raise" in kind:
+        return "raise"
+    if kind.startswith(("not-delivered", "wrong-leaf", "also-other-leaf", "delivered-twice", "wrong-coords:")):
+        return "event-misrouted"
+    if kind.startswith(("leaf-not-asked", "wrong-coords-to-leaf", "result-differs", "non-bool")):
+        return "move-misrouted"
+    return kind.split(":")[0]
+
+
 def _locate_in(canv, leaf):
     """top-left of `leaf` inside a canvas, read off that canvas (same rule as observe)"""
     grid = read_grid(canv)
@@ -829,7 +1011,20 @@ def _locate_in(canv, leaf):
     return fx - S.REAL_LABEL_OFFSET[leaf.kind], fy
 
 
-def blame(recipe, size, focus, v):
+_SIG_MEMO: dict = {}
+
+
+class _NoCount:
+    @staticmethod
+    def count(*a, **k):
+        pass
+
+
+def run_same(q, recipe, size, focus, hist, key) -> bool:
+    return any((g["clause"], g["kind"]) == key for g in run_collect(q, recipe, size, focus, hist))
+
+
+def blame(recipe, size, focus, v, hist=None):
     """Name the innermost container that already shows the disagreement, by observation only: each ancestor A of the
     leaf is rendered alone at the size it was observed to be handed, the leaf is located on A's own canvas (which gives
     A's top-left on the root canvas), and the same operation is put to A directly with translated coordinates.
@@ -847,6 +1042,8 @@ def blame(recipe, size, focus, v):
         o = observe(root, size, log, focus)
         if not o.ok:
             return None
+        if hist is not None and not apply_history(_NoCount, root, o, size, focus, hist, log):
+            return None
         for c_, r_ in op.get("after", []):
             try:
                 root.w.move_cursor_to_coords(size, c_, r_)
@@ -854,6 +1051,8 @@ def blame(recipe, size, focus, v):
                 return None
             o = observe(root, size, log, focus)
             if not o.ok:
+                return None
+            if hist is not None and not apply_history(_NoCount, root, o, size, focus, hist, log):
                 return None
         leaf = next((n for n in root.leaves() if n.sid == v["leaf"]), None)
         if leaf is None or leaf.sid not in o.rects:
@@ -895,7 +1094,9 @@ def blame(recipe, size, focus, v):
                 except Exception as e:  # noqa: BLE001
                     pk = f"mouse_event-raise:{exc_kind(e)}"
                 else:
-                    pk = mouse_kind([e for e in log if e[0] == "mouse"], leaf.sid, (lx, ly))
+                    ent = [e for e in log if e[0] == "mouse"]
+                    # an Overlay's backdrop is inert by design: reaching no leaf is not a failure there
+                    pk = None if (not ent and under_overlay_bottom(leaf)) else mouse_kind(ent, leaf.sid, (lx, ly))
             else:
                 if not hasattr(anc.w, "move_cursor_to_coords"):
                     continue
@@ -919,13 +1120,13 @@ def blame(recipe, size, focus, v):
                             pk = "cursor-not-on-requested-row" + (":None" if rep_ is None else "")
         except Exception:  # noqa: BLE001
             continue
-        ok = pk != v["kind"]  # only the SAME kind of failure makes this ancestor the culprit
+        ok = kind_family(pk) != kind_family(v["kind"])  # only the same family of failure makes this ancestor the culprit
         if not ok:
             return node_desc(anc, child_toward(anc, leaf)) + ">" + node_desc(leaf), mode_of(sz)
     return None
 
 
-def report(ctx, recipe, size, viols, focus=True):
+def report(ctx, recipe, size, viols, focus=True, hist=None):
     """shrink each distinct (clause, kind) by descending into subtrees that still show it, then report"""
     done = set()
     for v in viols:
@@ -933,12 +1134,27 @@ def report(ctx, recipe, size, viols, focus=True):
         if key in done:
             continue
         done.add(key)
+        # shrinking + blame cost up to seconds: once the same (clause, kind, root class, with/without history) has been
+        # worked out twice with one and the same signature, later occurrences are filed under it directly
+        prekey = (key[0], key[1], recipe["k"], hist is not None)
+        seen_sigs = _SIG_MEMO.setdefault(prekey, [])
+        if len(seen_sigs) >= 2 and len(set(seen_sigs)) == 1 and not getattr(ctx, "replaying", False):
+            ctx.count("violations_filed_without_reshrinking")
+            ctx.violation(seen_sigs[0], v["msg"] + f"  [root rendered at {tuple(size)}; not shrunk]", {"recipe": strip(recipe), "size": list(size), "focus": focus, "hist": hist, "clause": v["clause"], "kind": v["kind"], "op": v["op"]})
+            continue
         r, s, best = recipe, list(size), v
         q = Quiet(ctx)
         for _ in range(8):
             moved = False
             for cr, cs in subcases(r, s, focus):
-                got = [g for g in run_collect(q, cr, cs, focus) if (g["clause"], g["kind"]) == key]
+                allgot = run_collect(q, cr, cs, focus, hist)
+                got = [g for g in allgot if (g["clause"], g["kind"]) == key]
+                if not got and hist is not None:
+                    # with a size history the same defect may show as another kind of the same family in the subtree
+                    fam = (key[0].rstrip("b"), kind_family(key[1]))
+                    got = [g for g in allgot if (g["clause"].rstrip("b"), kind_family(g["kind"])) == fam]
+                    if got:
+                        key = (got[0]["clause"], got[0]["kind"])
                 if got:
                     r, s, best = cr, cs, got[0]
                     moved = True
@@ -947,23 +1163,37 @@ def report(ctx, recipe, size, viols, focus=True):
                 break
         clause = best["clause"]
         path, mode = best["path"], best.get("mode") or mode_of(s)
-        culprit = blame(r, s, focus, best)
+        if hist is not None and not run_same(q, r, s, focus, None, key):
+            # the same tree probed right after a fresh render does not show it: the per-size state left by the history is needed
+            stale = "|after-other-size"
+        else:
+            stale = ""
+        culprit = blame(r, s, focus, best, hist if stale else None)
         if culprit is not None:
             path, mode = culprit
-        sig = f"C09|{clause}|{best['kind']}|{mode}|{path}"
-        wit = {"recipe": strip(r), "size": s, "focus": focus, "clause": clause, "kind": best["kind"], "op": best["op"], "blamed": path}
+        if stale:
+            # the state left behind belongs to the container: the leaf class and press-1 vs other events add nothing
+            path = path.split(">")[0]
+            clause = {"c2b": "c2"}.get(clause, clause)
+        sigkind = best["kind"]
+        if stale and kind_family(sigkind) in ("event-misrouted", "move-misrouted"):
+            # which wrong cell a stale layout happens to hit (none / neighbour / shifted col or row) is an accident of the sizes
+            sigkind = kind_family(sigkind)
+        sig = f"C09|{clause}|{sigkind}{stale}|{mode}|{path}"
+        wit = {"recipe": strip(r), "size": s, "focus": focus, "hist": hist if stale else None, "clause": clause, "kind": best["kind"], "op": best["op"], "blamed": path}
+        seen_sigs.append(sig)
         ctx.violation(sig, best["msg"] + f"  [root rendered at {tuple(s)}]", wit)
 
 
 # ----------------------------------------------------------------------------- run / replay
-def do_case(ctx, recipe, size, queue=None, focus=True):
+def do_case(ctx, recipe, size, queue=None, focus=True, hist=None):
     got = []
-    c = Case(ctx, recipe, size, got, focus)
+    c = Case(ctx, recipe, size, got, focus, hist)
     o = c.run()
     ok = o is not None
-    ctx.case((json.dumps(strip(recipe), sort_keys=True), list(size), bool(focus)), nontrivial=ok and bool(o.cellmap))
+    ctx.case((json.dumps(strip(recipe), sort_keys=True), list(size), bool(focus), hist), nontrivial=ok and bool(o.cellmap))
     if got:
-        report(ctx, recipe, size, got, focus)
+        report(ctx, recipe, size, got, focus, hist)
     if ok and queue is not None:
         queue.extend(c.subs)
     return ok
@@ -1012,6 +1242,9 @@ def run(ctx):
         for i, (recipe, size) in enumerate(SEEDS):
             if ctx.mine(i):
                 do_case(ctx, recipe, size)
+                if size:
+                    for h in SEED_HISTORIES:
+                        do_case(ctx, recipe, size, None, True, h)
         while ctx.more(1.0) and ncases < maxcases:
             ncases += 1
             mode = rng.choice(["box", "box", "box", "flow", "flow", "fixed"])
@@ -1023,9 +1256,10 @@ def run(ctx):
             ctx.count("trees_generated")
             queue = []
             rfocus = rng.random() < 0.8
+            hist = gen_history(rng) if (mode != "fixed" and rng.random() < 0.45) else None
             for attempt in range(3):
                 size = T.root_size(rng, recipe, mode)
-                if do_case(ctx, recipe, size, queue, rfocus):
+                if do_case(ctx, recipe, size, queue, rfocus, hist):
                     if ncases <= 2:
                         ctx.sample({"recipe": strip(recipe), "size": size})
                     break
@@ -1037,7 +1271,7 @@ def run(ctx):
                 k += 1
                 r, s = queue.pop(0)
                 ctx.count("rerooted_subtrees")
-                do_case(ctx, r, s, queue)
+                do_case(ctx, r, s, queue, True, gen_history(rng) if (s and rng.random() < 0.45) else None)
         if ctx.shard == 0:
             ctx.extra["outside_domain_observations"] = outside_domain_probe()
     finally:
@@ -1074,6 +1308,12 @@ def _spy(mode="flow", **kw):
     return r
 
 
+SEED_HISTORIES = [
+    {"touch": [{"op": "render", "dc": "half", "dr": 0}], "rerender": True, "c3_first": False},
+    {"touch": [{"op": "render", "dc": "half", "dr": "half"}, {"op": "rows", "dc": -2, "dr": 0}], "rerender": False, "c3_first": True},
+    {"touch": [{"op": "cursor", "dc": "half", "dr": 0}, {"op": "pack", "dc": 4, "dr": 1}], "rerender": False, "c3_first": False},
+]
+
 SEEDS = [
     ({"k": "Filler", "c": _spy(), "valign": "top", "height": "pack"}, [5, 10]),
     ({"k": "Filler", "c": _spy("box"), "valign": "bottom", "height": 3, "top": 1}, [10, 6]),
@@ -1100,6 +1340,7 @@ SEEDS = [
     ({"k": "BoxAdapter", "c": _spy("box"), "h": 3}, [5]),
     ({"k": "LineBox", "c": _spy()}, [6]),
     ({"k": "GridFlow", "cells": [_spy(), _spy(), _spy()], "cw": 3, "hs": 1, "vs": 1, "align": "center"}, [8]),
+    ({"k": "GridFlow", "cells": [_spy(rows=1), _spy(rows=1), {"k": "Button", "len": 2}, _spy(rows=1), _spy(rows=1), _spy(rows=1)], "cw": 6, "hs": 1, "vs": 0, "align": "left"}, [41]),
     ({"k": "ListBox", "items": [_spy(), _spy(), {"k": "Edit", "cap": 1, "len": 3, "pos": 1, "wrap": "any"}]}, [6, 7]),
     ({"k": "ScrollBar", "c": {"k": "Scrollable", "c": _spy()}, "side": "right"}, [6, 3]),
     ({"k": "AttrMap", "c": {"k": "Pile", "items": [[["pack"], {"k": "Button", "len": 2}], [["pack"], {"k": "CheckBox", "len": 2}]]}}, [8]),
@@ -1108,4 +1349,4 @@ SEEDS = [
 
 def replay(ctx, wit):
     urwid.set_encoding("utf-8")
-    do_case(ctx, wit["recipe"], wit["size"], None, wit.get("focus", True))
+    do_case(ctx, wit["recipe"], wit["size"], None, wit.get("focus", True), wit.get("hist"))
